@@ -35,7 +35,7 @@ fn siblings(kind: &str, defs: &str) -> Vec<String> {
 }
 
 fn subjects_inner(rng: &mut Rng) -> (String, String, bool, &'static str) {
-    match rng.below(13) {
+    match rng.below(14) {
         0 => (
             "'shape = Circle[r: 'int] | Rect[w: 'int, h: 'int] | Tri['int, 'int, 'int], area = #'shape { | =Circle[r: r] => [r, r] __integer_multiply__ | =Rect[w: w, h: h] => [w, h] __integer_multiply__ | =Tri[a, b, c] => [a, [b, c] __integer_add__] __integer_add__ }".into(),
             format!("[Circle[r: {}] area, Rect[w: 2, h: {}] area, Tri[1, 2, 3] area]", rng.range(1, 9), rng.range(1, 9)),
@@ -91,6 +91,19 @@ fn subjects_inner(rng: &mut Rng) -> (String, String, bool, &'static str) {
             format!("ia = &__integer_and__, p = @#{{ m = ! [&ia], m ia }}, [255, {}] p, ix = &__integer_xor__, q = @#{{ !ix }}, [3, 5] q, [!p, !q, &__integer_or__ gb, 5 gb]", rng.range(1, 250)),
             false,
             "builtin-signature",
+        ),
+        11 => (
+            // values whose run-time type is looked up through a type the program never writes: process
+            // handles tested against a wider / other process type and sent as bare messages, builtin
+            // values tested against a wider function type (the tables must not depend on which types
+            // happen to be registered - tree-shaking drops the unreferenced ones)
+            "pt = #((@'int) | (@'bin)) { | =(@'int) => 1 | =(@'bin) => 2 }, bt = #((#['int, 'int] -> ('int | 'bin)) | (#'bin -> 'int)) { | =(#['int, 'int] -> ('int | 'bin)) => 1 | =(#'bin -> 'int) => 2 }".into(),
+            format!(
+                "p = @#{{ !#'int }}, q = @#{{ !#'bin }}, w = @#{{ !#'int }}, m = @#{{ !#(@'int) =h, {} h, Ok }}, &w m, [&p pt, &q pt, &__integer_xor__ bt, &__binary_popcount__ bt, !w]",
+                rng.range(1, 90)
+            ),
+            false,
+            "unregistered-value-types",
         ),
         10 => (
             // composite effect results: the backend stamps `[name, kind]` / `[kind, size, modified, mode]`
@@ -171,7 +184,7 @@ impl Property for C10 {
         false
     }
     fn rule_text(&self) -> &'static str {
-        "cases: a subject program (union dispatch, recursive types, partial types, closures with binary captures, typed-receive processes, builtins new to the environment used as receive sources and in type tests, a REPL session that references a process by number (`@N`) and type-tests it, directory listing and stat whose composite results the backend stamps with pushed type ids, a helper record, C03's confluent process family) is run once as compiled in a fresh environment (reference) and then under variants that draw: 0-6 previously merged programs and REPL lines of a second session (other tuple shapes, same-named tuples with other field types, other constants and builtins), some still running when the subject is merged, merges landing while the subject runs, the load path (run path as compiled / tree-shaken / JSON round trip, or REPL), helpers inlined vs imported from an in-memory module, plus the usual schedule/configuration sampling. History leg = variants with >=1 prior merge; configuration leg = the rest. Non-trivial: >=2 workers, >=1 out-of-order handled message, conclusive. Distinct = distinct (scenario shape + packaging, interleaving hash)."
+        "cases: a subject program (union dispatch, recursive types, partial types, closures with binary captures, typed-receive processes, builtins new to the environment used as receive sources and in type tests, a REPL session that references a process by number (`@N`) and type-tests it, directory listing and stat whose composite results the backend stamps with pushed type ids, process handles and builtin values tested against types the program never writes, a helper record, C03's confluent process family) is run once as compiled in a fresh environment (reference) and then under variants that draw: 0-6 previously merged programs and REPL lines of a second session (other tuple shapes, same-named tuples with other field types, other constants and builtins), some still running when the subject is merged, merges landing while the subject runs, the load path (run path as compiled / tree-shaken / JSON round trip, or REPL), helpers inlined vs imported from an in-memory module, plus the usual schedule/configuration sampling. History leg = variants with >=1 prior merge; configuration leg = the rest. Non-trivial: >=2 workers, >=1 out-of-order handled message, conclusive. Distinct = distinct (scenario shape + packaging, interleaving hash)."
     }
     fn required_probes(&self) -> Vec<&'static str> {
         vec!["history_leg_runs", "configuration_leg_runs", "subject_tree_shaken", "subject_json_roundtrip", "subject_via_repl", "subject_module_import", "merge_while_subject_running", "history_program_still_running_at_merge", "worker_tables_compared"]
